@@ -1,6 +1,7 @@
 (* Base/Bytes.v -- byte strings as lists of N, with Go's string comparison.
    No proofs here: definitions only (so the model still runs when a proof breaks). *)
-From Coq Require Export List NArith ZArith Bool Lia String Ascii.
+From Coq Require Export List NArith ZArith Bool Lia.
+From Coq Require Ascii String.
 Export ListNotations.
 Open Scope N_scope.
 
@@ -8,10 +9,10 @@ Definition byte := N.
 Definition bytes := list N.
 
 (* string literals -> bytes *)
-Fixpoint b (s : string) : bytes :=
+Fixpoint b (s : String.string) : bytes :=
   match s with
-  | EmptyString => []
-  | String c r => N_of_ascii c :: b r
+  | String.EmptyString => []
+  | String.String c r => Ascii.N_of_ascii c :: b r
   end.
 
 Fixpoint beqb (x y : bytes) : bool :=
